@@ -125,7 +125,7 @@ class _B:
         return nm
 
     def names(self):
-        return (self.o.name_pool or HOSTILE_NAMES) if self.o.hostile else PLAIN_NAMES
+        return self.o.name_pool or (HOSTILE_NAMES if self.o.hostile else PLAIN_NAMES)
 
     def simple_type(self):
         d = self.d
